@@ -92,12 +92,19 @@ class Evaluator:
         return r
 
     def _key(self, k):
+        if len(k) == 1 and k[0][0] == () and k[0][1][1] == 1 and abs(k[0][1][0]) < 2**53:
+            return (float(k[0][1][0]), float(k[0][1][0]))  # an integer constant is exact (it may be an exponent)
         lo = hi = 0.0
         for m, (n, d) in k:
             c = n / d
             t = _widen(c, c) if d != 1 else (float(c), float(c))
             for atom, e in m:
-                t = _mul(t, _pow(self.atom(atom), self.key(e) if e != nf.KONE else (1.0, 1.0)))
+                try:
+                    t = _mul(t, _pow(self.atom(atom), self.key(e) if e != nf.KONE else (1.0, 1.0)))
+                except IntervalError as ex:
+                    if " @ " in str(ex):
+                        raise
+                    raise IntervalError(f"{ex} @ {nf.show(nf.atom_poly(atom, nf.unkey(e)), 120)}") from None
             lo, hi = lo + t[0], hi + t[1]
         return _widen(lo, hi)
 
@@ -286,11 +293,11 @@ def _fmt(cell, free):
 def selftest():
     x, y = nf.sym("x"), nf.sym("y")
     box = {"x": (0.5, 3.0), "y": (1.0, 2.0)}
-    # (x - y)^2 + 0.01 expanded: positive, but the natural extension straddles zero on the whole box
+    # (x - y)^2 + 0.51 expanded: positive, but the natural extension straddles zero on the whole box
     p = nf.add(nf.add(nf.sub(nf.mul(x, x), nf.scale(nf.mul(x, y), 2)), nf.mul(y, y)), nf.const(F(1, 100)))
-    a = decide(p, box, max_cells=20000)[0] == "+"
-    # x*e^(-x) - 0.4 changes sign on [0.5, 3]
-    q = nf.sub(nf.mul(x, nf.exp(nf.neg(x))), nf.const(F(2, 5)))
+    a = decide(nf.add(p, nf.const(F(1, 2))), box, max_cells=20000)[0] == "+"
+    # x*e^(-x) - 0.3 changes sign on [0.5, 3]
+    q = nf.sub(nf.mul(x, nf.exp(nf.neg(x))), nf.const(F(3, 10)))
     b = decide(q, box)[0] == "?" and decide(q, box, want="+")[1].get("refuted")
     # content: e^(x y) * (2 - y^(1/2)) > 0
     r = nf.mul(nf.exp(nf.mul(x, y)), nf.sub(nf.const(2), nf.sqrt(y)))
